@@ -380,6 +380,8 @@ fn g1_encode_roundtrip() {
 }
 
 // ------------------------------------------------------------------ G2 (c1 before c0; lexicographic order with c1 most significant)
+/// (q - 1) / 2, little-endian limbs
+const HALF_Q: [u64; 6] = [0xdcff7fffffffd555, 0x0f55ffff58a9ffff, 0xb39869507b587b12, 0xb23ba5c279c2895f, 0x258dd3db21a5d66b, 0x0d0088f51cbff34d];
 fn lt2(a: &[[u64; 6]; 2], b: &[[u64; 6]; 2]) -> bool {
     // a, b = [c0, c1]
     if lt(&a[1], &b[1]) {
@@ -690,6 +692,13 @@ fn g2_sort_flag_rule() {
     let c1_zero: bool = kani::any();
     if c1_zero {
         y[1][0] = 0;
+    }
+    // the boundary of "y > -y": the u-coefficient exactly (q-1)/2 or (q+1)/2 (its negative), the real part arbitrary
+    let c1_half: u8 = kani::any();
+    if c1_half == 1 {
+        y[1] = HALF_Q;
+    } else if c1_half == 2 {
+        y[1] = neg(&HALF_Q);
     }
     kani::assume(lt(&y[0], &Q) && !(is0(&y[0]) && is0(&y[1])));
     let p = G2Affine::verif_from_raw(mkfq2([[0u64; 6]; 2]), mkfq2(y), false);
